@@ -22,10 +22,27 @@ import (
 	"pgregory.net/rapid"
 )
 
+// vgfTempDir makes the per-case directory (inside the run directory of the driver when there is one).
+func vgfTempDir(t *rapid.T) string {
+	base := os.Getenv("VERIF_RUNDIR")
+	if base == "" {
+		base = os.TempDir()
+	}
+	dir, err := os.MkdirTemp(base, "vgf-")
+	if err != nil {
+		t.Fatalf("tempdir: %v", err)
+	}
+	return dir
+}
+
 // ---------------------------------------------------------------------------
 // universe
 
-var vgfColOffs = []uint64{0, 1, 2, 3, 65535, 65536, 65537, ShardWidth - 1}
+// Column offsets inside the shard: 11 of them fall into container 0 of a row, so a row can hold more values per
+// container than the 5 that roaring keeps inline in the Container struct (only larger ones are backed by the mmap).
+var vgfColOffs = []uint64{0, 1, 2, 3, 4, 5, 6, 7, 8, 9, 65535, 65536, 65537, ShardWidth - 1}
+
+const vgfWideN = 10 // the first vgfWideN offsets are what the "wide" operations write
 var vgfRowsSet = []uint64{0, 1, 2, 3, 99, 100, 101, 199, 200}
 var vgfRowsMutex = []uint64{0, 1, 2, 3, 100}
 var vgfRowsBool = []uint64{0, 1}
@@ -123,11 +140,11 @@ func vgfDefaultWeights(kind string) []vgfWeight {
 	admin := []vgfWeight{{"snapshot", 2}, {"bgrun", 3}, {"reopen", 2}, {"reopenNew", 1}, {"flush", 1}, {"recalc", 1}}
 	switch kind {
 	case vgfSet:
-		return append([]vgfWeight{{"setBit", 6}, {"clearBit", 4}, {"setRow", 3}, {"clearRow", 2}, {"import", 4}, {"importClear", 3}, {"roaring", 4}, {"roaringClear", 3}}, admin...)
+		return append([]vgfWeight{{"setBit", 6}, {"clearBit", 4}, {"setRow", 3}, {"clearRow", 2}, {"import", 4}, {"importClear", 3}, {"roaring", 4}, {"roaringClear", 3}, {"importWide", 2}, {"roaringWide", 1}}, admin...)
 	case vgfMutex, vgfBool:
-		return append([]vgfWeight{{"setBit", 6}, {"clearBit", 3}, {"clearRow", 2}, {"import", 6}, {"importClear", 3}}, admin...)
+		return append([]vgfWeight{{"setBit", 6}, {"clearBit", 3}, {"clearRow", 2}, {"import", 6}, {"importClear", 3}, {"importWide", 2}}, admin...)
 	default: // bsi
-		return append([]vgfWeight{{"setValue", 6}, {"importValue", 6}, {"importValueClear", 2}}, admin...)
+		return append([]vgfWeight{{"setValue", 6}, {"importValue", 6}, {"importValueClear", 2}, {"importValueWide", 2}}, admin...)
 	}
 }
 
@@ -189,6 +206,21 @@ func vgfGenOp(t *rapid.T, label string, cfg vgfCfg, ws []vgfWeight) vgfOp {
 			op.Official = rapid.Bool().Draw(t, label+".official")
 			op.Optimize = rapid.Bool().Draw(t, label+".optimize")
 		}
+	case "importWide", "roaringWide":
+		// one row gets the first vgfWideN columns: its container outgrows the inline representation
+		op.Name = strings.TrimSuffix(op.Name, "Wide")
+		r := row(".row")
+		for i := 0; i < vgfWideN; i++ {
+			op.Rows = append(op.Rows, r)
+			op.Cols = append(op.Cols, cfg.Shard*ShardWidth+vgfColOffs[i])
+		}
+	case "importValueWide":
+		op.Name = "importValue"
+		v := vgfGenVal(t, label+".val")
+		for i := 0; i < vgfWideN; i++ {
+			op.Cols = append(op.Cols, cfg.Shard*ShardWidth+vgfColOffs[i])
+			op.Vals = append(op.Vals, v)
+		}
 	case "importValue", "importValueClear":
 		op.Clear = strings.HasSuffix(op.Name, "Clear")
 		op.Name = "importValue"
@@ -229,10 +261,13 @@ type vgfM struct {
 	pendingX    map[uint64]bool   // row written through a different path than before, after a read
 	crossPath   bool              // C07 rule satisfied
 	everRows    map[uint64]struct{}
-	blkComputed map[int]bool // C10: checksum of block computed (cached)
-	blkDirty    map[int]bool // C10: block written by a path other than setBit/clearBit since
-	staleBlock  bool         // C10 rule satisfied
+	touched     map[uint64]struct{} // rows named by any write (also clears that changed nothing)
+	blkComputed map[int]bool        // C10: checksum of block computed (cached)
+	blkDirty    map[int]bool        // C10: block written by a path other than setBit/clearBit since
+	staleBlock  bool                // C10 rule satisfied
 	nSnap       int
+	lastOp      string // name of the operation applied last
+	wide        bool   // some container held more values than fit inline
 	nReopen     int
 	paths       map[string]int
 }
@@ -241,7 +276,7 @@ func vgfNew(t *rapid.T, cfg vgfCfg, dir, name string) *vgfM {
 	m := &vgfM{t: t, cfg: cfg, name: name, path: filepath.Join(dir, name), rows: vgfRowsOf(cfg.Kind),
 		bits: map[uint64]map[uint64]struct{}{}, vals: map[uint64]int64{},
 		lastPath: map[uint64]string{}, readSince: map[uint64]bool{}, pendingX: map[uint64]bool{},
-		everRows: map[uint64]struct{}{}, blkComputed: map[int]bool{}, blkDirty: map[int]bool{}, paths: map[string]int{}}
+		everRows: map[uint64]struct{}{}, touched: map[uint64]struct{}{}, blkComputed: map[int]bool{}, blkDirty: map[int]bool{}, paths: map[string]int{}}
 	if cfg.Bg {
 		m.q = make(chan *fragment, 1)
 	}
@@ -418,6 +453,7 @@ func vgfEqU(a, b []uint64) bool {
 func (m *vgfM) wrote(path string, rows ...uint64) {
 	m.paths[path]++
 	for _, r := range rows {
+		m.touched[r] = struct{}{}
 		if m.readSince[r] && m.lastPath[r] != "" && m.lastPath[r] != path {
 			m.pendingX[r] = true
 		}
@@ -506,6 +542,10 @@ func vgfOfficialRoaring(positions []uint64) []byte {
 
 func (m *vgfM) apply(op vgfOp) {
 	m.hist = append(m.hist, op.String())
+	m.lastOp = op.Name
+	if len(op.Cols) >= vgfWideN {
+		m.wide = true
+	}
 	f := m.f
 	switch op.Name {
 	case "setBit":
@@ -938,13 +978,7 @@ func (m *vgfM) checkBSIRows() {
 		{pql.EQ, "==", func(v int64) bool { return v == p }},
 		{pql.NEQ, "!=", func(v int64) bool { return v != p }},
 	}
-	if m.depth >= 1 {
-		ops = append(ops,
-			rop{pql.LT, "<", func(v int64) bool { return v < p }},
-			rop{pql.LTE, "<=", func(v int64) bool { return v <= p }},
-			rop{pql.GT, ">", func(v int64) bool { return v > p }},
-			rop{pql.GTE, ">=", func(v int64) bool { return v >= p }})
-	}
+	// (ordered comparisons LT/LTE/GT/GTE are the subject of C14 and are not read here)
 	for _, o := range ops {
 		row, err := m.f.rangeOp(o.op, m.depth, p)
 		if err != nil {
